@@ -14,11 +14,16 @@ CHEAP = ["halton", "random", "rseq", "best"]
 def _lineup(rnd, n=None, kinds=CHEAP, first_history_free=True):
     n = n or rnd.randint(1, 4)
     out = []
+    have = 0   # history rows available when the i-th sampler first runs
     for i in range(n):
         k = rnd.choice(kinds)
         if i == 0 and first_history_free and k in ("best", "pso", "rf", "xgb", "gp", "cors"):
             k = "halton"
-        out.append((k, rnd.randint(1, 4)))
+        b = rnd.randint(1, 4)
+        if k == "best":
+            b = min(b, max(have, 1))   # best-batch needs at least batch_size history rows (admissible line-ups only)
+        out.append((k, b))
+        have += b
     return out
 
 
